@@ -25,6 +25,8 @@ class Cell(NullCell):
         super().__init__(bits, refs, cell_type)
 
         self.level_mask: LevelMask = self.resolve_mask()
+        if self.is_exotic:
+            self.check_exotic()
         self._hashes: typing.List[bytes] = []
         self._depths: typing.List[int] = []
         self.calculate_hashes()
@@ -60,6 +62,30 @@ class Cell(NullCell):
             return LevelMask(0)
         else:
             raise CellError(f'Unknown cell type: {self.type_}')
+
+    def check_exotic(self) -> None:
+        """
+        The data of an exotic cell must have the layout of its type, and a Merkle proof / update cell must carry
+        the level-0 hash and depth of each of its children (as DataCell::create in the reference implementation checks).
+        """
+        bits_len, refs_num = len(self.bits), len(self.refs)
+        if self.type_ == CellTypes.pruned_branch:
+            mask = self.level_mask.mask
+            if not 1 <= mask <= 7 or bits_len != 16 + bin(mask).count('1') * (256 + 16):
+                raise CellError(f'Pruned branch with level mask {mask} must have {16 + bin(mask).count("1") * 272} data bits, got {bits_len}')
+        elif self.type_ == CellTypes.library_ref:
+            if refs_num or bits_len != 8 + 256:
+                raise CellError('Library reference must have 264 data bits and no refs')
+        elif self.type_ in (CellTypes.merkle_proof, CellTypes.merkle_update):
+            n = 1 if self.type_ == CellTypes.merkle_proof else 2
+            if refs_num != n or bits_len != 8 + n * (256 + 16):
+                raise CellError(f'Merkle cell of type {self.type_} must have {n} refs and {8 + n * 272} data bits')
+            data = self.bits.tobytes()
+            for i, ref in enumerate(self.refs):
+                if data[1 + 32 * i: 33 + 32 * i] != ref.get_hash(0):
+                    raise CellError('Hash mismatch in a Merkle cell')
+                if int.from_bytes(data[1 + 32 * n + 2 * i: 3 + 32 * n + 2 * i], 'big') != ref.get_depth(0):
+                    raise CellError('Depth mismatch in a Merkle cell')
 
     def to_builder(self):
         if self.is_exotic:
